@@ -54,3 +54,61 @@ def run(pkg, task, alg, kind, handle):
     ds = handle if kind == 'task' else handle.ds()
     ds.update()
     return None
+
+
+class _Ghost(dawgie.Algorithm):
+    DAWGIE_IGNORE = True
+
+    def __init__(self):
+        dawgie.Algorithm.__init__(self)
+        self._version_ = dawgie.VERSION(1, 0, 0)
+
+    def name(self):
+        return 'ghost'
+
+    def previous(self):
+        return []
+
+    def state_vectors(self):
+        return []
+
+
+class _GhostSV(dawgie.StateVector):
+    DAWGIE_IGNORE = True
+
+    def __init__(self):
+        dawgie.StateVector.__init__(self)
+        self._version_ = dawgie.VERSION(1, 0, 0)
+        self['nope'] = None
+
+    def name(self):
+        return 'nope'
+
+    def view(self, caller, visitor):
+        return
+
+
+def break_refs(refs, how):
+    '''rule-breaking variants of the first reference (compliance harness)'''
+    if not how or not refs:
+        return refs
+    r = refs[0]
+    if how == 'ref-factory':
+        r = r._replace(factory='not-a-function')
+    elif how == 'ref-impl':
+        r = r._replace(impl=object())
+    elif how == 'ref-item':
+        r = dawgie.SV_REF(factory=r.factory, impl=r.impl, item={})
+    elif how == 'ref-feat':
+        item = getattr(r, 'item', None) or r.impl.state_vectors()[0]
+        r = dawgie.V_REF(factory=r.factory, impl=r.impl, item=item, feat=3)
+    elif how == 'ref-missing-alg':
+        r = dawgie.ALG_REF(factory=r.factory, impl=_Ghost())
+    elif how == 'ref-missing-sv':
+        r = dawgie.SV_REF(factory=r.factory, impl=r.impl, item=_GhostSV())
+    elif how == 'ref-missing-val':
+        item = getattr(r, 'item', None) or r.impl.state_vectors()[0]
+        r = dawgie.V_REF(factory=r.factory, impl=r.impl, item=item, feat='nope')
+    elif how == 'ref-not-a-ref':
+        r = (r.factory, r.impl)
+    return [r] + list(refs[1:])
